@@ -48,7 +48,7 @@ def main():
         if not os.path.exists(mp) or not os.path.exists(os.path.join(d, 'patch.diff')):
             print(i, 'SKIP (incomplete)'); continue
         dst = os.path.join(VERIF, 'seeded', i)
-        if os.path.exists(os.path.join(dst, 'meta.json')) and 'confirmed' in json.load(open(os.path.join(dst, 'meta.json'))):
+        if not os.environ.get('SEED_FORCE') and os.path.exists(os.path.join(dst, 'meta.json')) and 'confirmed' in json.load(open(os.path.join(dst, 'meta.json'))):
             print(i, 'already confirmed'); continue
         meta = json.load(open(mp))
         t0 = time.time()
